@@ -58,6 +58,22 @@ class C02(Prop):
         'corpus checksum pinned; /repo/test/specification is not read',
     )
 
+    def selfcheck(self):
+        """The normaliser may only forgive whitespace / attribute order: it must keep (nearly all) distinct
+        expected outputs distinct, and must tell a few hand-made wrong outputs from the right ones."""
+        ex = corpus.spec_examples()
+        norm = [normalize(e['html']) for e in ex]
+        distinct_raw = len({e['html'].strip() for e in ex})
+        distinct_norm = len(set(norm))
+        if distinct_norm < distinct_raw - 25:
+            raise RuntimeError('normaliser merges too many distinct expected outputs: %d -> %d' % (distinct_raw, distinct_norm))
+        for a, b in [('<p>a</p>', '<p>b</p>'), ('<ul>\n<li>a</li>\n</ul>', '<ul>\n<li>\n<p>a</p>\n</li>\n</ul>'),
+                     ('<h1>a</h1>', '<h2>a</h2>'), ('<p><a href="/u">a</a></p>', '<p><a href="/v">a</a></p>'),
+                     ('<pre><code>a\n b\n</code></pre>', '<pre><code>a\nb\n</code></pre>'), ('<p>a<br />\nb</p>', '<p>a\nb</p>')]:
+            if normalize(a) == normalize(b):
+                raise RuntimeError('normaliser equates %r and %r' % (a, b))
+        return 'normaliser keeps %d of %d distinct expected outputs distinct; 6 wrong/right pairs told apart' % (distinct_norm, distinct_raw)
+
     def parts(self):
         return [Spec(), SpecLines()]
 
